@@ -42,6 +42,8 @@ pub struct AfSpec {
     /// Some(authority label) = permissioned tier
     pub permissioned: bool,
     pub trade_enable_timestamp: Option<u64>,
+    /// Some((bps, maximum fee)): both mints are Token-2022 mints with this transfer fee (v2 instructions only)
+    pub tfee: Option<(u16, u64)>,
 }
 
 #[derive(Clone)]
@@ -145,8 +147,16 @@ pub fn base(spec: &AfSpec) -> Base {
     l.put_system(funder, world::RICH);
     let (m1, m2) = (key(&format!("{lab}/mint1")), key(&format!("{lab}/mint2")));
     let (mint_a, mint_b) = if m1 < m2 { (m1, m2) } else { (m2, m1) };
-    world::create_spl_mint(&mut l, mint_a, 6, None);
-    world::create_spl_mint(&mut l, mint_b, 6, None);
+    match spec.tfee {
+        None => {
+            world::create_spl_mint(&mut l, mint_a, 6, None);
+            world::create_spl_mint(&mut l, mint_b, 6, None);
+        }
+        Some((bps, max)) => {
+            world::create_t22_mint(&mut l, mint_a, 6, None, &[world::T22Ext::TransferFee { bps, max }]);
+            world::create_t22_mint(&mut l, mint_b, 6, None, &[world::T22Ext::TransferFee { bps, max }]);
+        }
+    }
     let authority = if spec.permissioned { pool_authority(lab) } else { Pubkey::default() };
     if spec.permissioned {
         l.put_system(authority, world::RICH);
@@ -193,7 +203,7 @@ pub fn build(spec: &AfSpec) -> (Ledger, AfWorld) {
     for (i, (lo, hi, liq)) in spec.positions.iter().enumerate() {
         let p = world::pos_ref(&pool, &format!("{lab}/pos{i}"), lp.owner, *lo, *hi, false);
         world::must("open_position", svm::process(&mut l, &world::ix_open_position(&p, funder)));
-        world::must("increase_liquidity", svm::process(&mut l, &world::ix_increase(&p, &lp, *liq, u64::MAX, u64::MAX, i % 2 == 1)));
+        world::must("increase_liquidity", svm::process(&mut l, &world::ix_increase(&p, &lp, *liq, u64::MAX, u64::MAX, i % 2 == 1 || spec.tfee.is_some())));
         positions.push(p);
         if let (Some(t), Some(lpt)) = (&twin, &lp_twin) {
             let p = world::pos_ref(t, &format!("{lab}/twin/pos{i}"), lpt.owner, *lo, *hi, false);
@@ -379,6 +389,8 @@ pub fn apply(l: &Ledger, w: &AfWorld, op: &AOp) -> AStepped {
             let st = w.pool.state(l);
             // group boundaries of the CURRENTLY configured tick group size (== w.consts.group until a SetConsts changes it)
             let limit = resolve_tgt(st.sqrt_price, stored_consts(l, w).group as i64, *a_to_b, *tgt);
+            // Token-2022 pools are only served by the v2 instruction
+            let v2 = &(*v2 || !w.pool.is_v1_capable());
             let ix = ix_swap_on(l, w, &w.pool, &w.trader, *a_to_b, *exact_in, *amount, limit, *v2, true);
             let _ = whirlpool::verif_hooks::take_swap_trace();
             let outcome = svm::process(&mut n, &ix);
